@@ -240,6 +240,72 @@ class Nullness:
         return hits
 
 
+def calls_under_null(f, d):
+    """call nodes that control can reach from the entry of f while the variable d is NULL (edges that the hypothesis
+    excludes are not taken; an assignment to d ends the path)"""
+    cfg = f.cfg
+    out, seen_calls = [], set()
+    seen = set()
+    work = [(cfg.entry, 0)]
+
+    def collect(n):
+        """calls evaluated in n under the hypothesis, honouring short-circuit operators; True when d is re-assigned"""
+        if n is None:
+            return False
+        k = n["k"]
+        ch = n.get("ch") or []
+        if k == "Binary" and n.get("op") in ("&&", "||"):
+            if collect(ch[0]):
+                return True
+            v = three(ch[0], d)
+            if (n["op"] == "&&" and v is False) or (n["op"] == "||" and v is True):
+                return False
+            return collect(ch[1])
+        if k == "Cond" and len(ch) >= 3:
+            if collect(ch[0]):
+                return True
+            v = three(ch[0], d)
+            killed = False
+            if v is not False:
+                killed = collect(ch[1]) or killed
+            if v is not True:
+                killed = collect(ch[2]) or killed
+            return killed
+        killed = False
+        for c in ch:
+            killed = collect(c) or killed
+        if k == "Call" and n["i"] not in seen_calls:
+            seen_calls.add(n["i"])
+            out.append(n)
+        if k == "Assign" and n.get("op", "=") == "=" and _is(ch[0], d):
+            return True
+        return killed
+    while work:
+        b, i = work.pop()
+        blk = cfg.blocks[b]
+        killed = False
+        for j in range(i, len(blk["e"])):
+            if collect(f.nodes.get(blk["e"][j])):
+                killed = True
+                break
+        if killed:
+            continue
+        succ = list(cfg.succ[b])
+        raw = blk["s"]
+        tc = blk.get("tc")
+        if tc is not None and len(raw) == 2 and blk.get("tkind") != "SwitchStmt":
+            v = three(f.nodes.get(tc), d)
+            if v is True:
+                succ = [x for x in succ if x == raw[0]]
+            elif v is False:
+                succ = [x for x in succ if x == raw[1]]
+        for x in succ:
+            if x not in seen:
+                seen.add(x)
+                work.append((x, 0))
+    return out
+
+
 def may_return_null(prog, nn, skip_components=("test",)):
     """functions with a pointer result some `return` of which yields NULL: a null constant, a call of such a function,
     or a local that may still be NULL there (least fixed point)"""
